@@ -26,3 +26,24 @@ Proof.
   rewrite !oo_bind, oo_unwrap_p, oo_unwrap.
   destruct (ok_opt (encode cert)) as [cb|]; reflexivity.
 Qed.
+
+(* ------------------------------------------------------------------ from the configuration to the identity *)
+Require Import RV.Model.Config RV.Model.ConfigLoad.
+From Coq Require Import ZArith.
+
+(* kms::load_seed of the default build: the configured seed itself for `plaintext`, a refusal otherwise *)
+Theorem gen_load_seed_model : forall c,
+  gen_load_seed c = match lc_kms c with KPlaintext => Ok (lc_seed c) | _ => Err InvalidConfiguration end.
+Proof. intros c. unfold gen_load_seed. destruct (lc_kms c); reflexivity. Qed.
+
+(* Server::new's key set-up, through the translated pieces: the seed the configuration holds is loaded as it
+   is, and the identity (signer, SRV value) is computed from it alone *)
+Theorem gen_identity_from_config : forall H, HashLen H -> forall ed_pk c seed,
+  gen_load_seed c = Ok seed ->
+  seed = lc_seed c /\ lc_kms c = KPlaintext /\
+  gen_ltk_new ed_pk H seed = Ok (lc_seed c, ltk_srv_value H ed_pk (lc_seed c)).
+Proof.
+  intros H HL ed_pk c seed Hs. rewrite gen_load_seed_model in Hs.
+  destruct (lc_kms c) eqn:Ek; try discriminate Hs. injection Hs as <-.
+  split; [reflexivity|]. split; [reflexivity|]. apply gen_ltk_new_model. exact HL.
+Qed.
